@@ -268,6 +268,10 @@ func IteByte(c bool, a, b byte) byte {
 	return b
 }
 
+// RunClockTo advances the virtual clock to t, firing in deadline order every
+// timer due by then (concrete deadlines only).
+func RunClockTo(t time.Duration) { time.Sleep(50 * time.Millisecond) }
+
 // FireTimerNow fires one pending timer at once (no quiescing before or after);
 // may be called from any goroutine.
 func FireTimerNow() bool { return false }
